@@ -10,6 +10,7 @@
 package c08
 
 import (
+	"Havoc/pkg/agent"
 	"bytes"
 	"encoding/binary"
 	"encoding/json"
@@ -31,6 +32,9 @@ type chainCase struct {
 	ZeroKey []bool   `json:"zero_key"`
 	Seed    int64    `json:"seed"`
 	Tasks   []taskOp `json:"tasks"`
+	// TaskOnAdd: an operator tasks every pivot agent at the moment its session appears
+	// (inside the teamserver's AgentAdd call for it)
+	TaskOnAdd bool `json:"task_on_add,omitempty"`
 }
 
 type taskOp struct {
@@ -141,6 +145,19 @@ func runChain(c *lib.Ctx, cs chainCase) (sig, what string) {
 	rng := rand.New(rand.NewSource(cs.Seed))
 	w := &world{r: r, h: hh, rec: rig.NewRecorder(r.TS), req: 0x80000}
 	hh.Teamserver = w.rec
+	atAdd := map[string]uint32{} // pivot agent -> request id of the task issued when it appeared
+	var early []demon.Task       // tasks the root was handed while the chain was being built
+	if cs.TaskOnAdd {
+		w.rec.OnAgentAdd = func(a *agent.Agent) {
+			for i := 1; i < len(w.sims); i++ {
+				if w.sims[i].Hex() == a.NameID {
+					w.req++
+					atAdd[a.NameID] = w.req
+					rig.TaskSimple(r.TS, a.NameID, w.req)
+				}
+			}
+		}
+	}
 	depth := len(cs.IDs) - 1
 	for i, id := range cs.IDs {
 		s := rig.NewSim(rng, id)
@@ -162,6 +179,10 @@ func runChain(c *lib.Ctx, cs chainCase) (sig, what string) {
 		if resp.Panic != nil {
 			return lib.PanicSig(resp.Panic, resp.Stack), fmt.Sprintf("building the chain (hop %d) panics: %v", i, resp.Panic)
 		}
+		// the root's reply may already carry tasks issued meanwhile (OnAgentAdd)
+		if ts, ok := demon.ParseTasks(resp.Body, w.sims[0].Key, w.sims[0].IV); ok {
+			early = append(early, ts...)
+		}
 		var found bool
 		for _, a := range r.TS.Agents.Agents {
 			if a.NameID == w.sims[i].Hex() && a.Pivots.Parent != nil && a.Pivots.Parent.NameID == w.sims[i-1].Hex() {
@@ -172,8 +193,38 @@ func runChain(c *lib.Ctx, cs chainCase) (sig, what string) {
 			return "chain:child-not-linked:" + idClass(w.sims[i].ID), fmt.Sprintf("after the SMB connect callback of %s, agent %s is not registered as its child (depth %d)", w.sims[i-1].Hex(), w.sims[i].Hex(), i)
 		}
 	}
-	// drain whatever the chain building queued
-	w.post(w.up(0))
+	// drain whatever the chain building queued; a task issued when a session appeared must be
+	// on its way down the chain like any other
+	w.rec.OnAgentAdd = nil
+	if len(atAdd) > 0 {
+		resp, tasks, ok := w.sims[0].Checkin(hh.GinEngine)
+		if resp.Panic != nil {
+			return lib.PanicSig(resp.Panic, resp.Stack), fmt.Sprintf("root check-in panics: %v", resp.Panic)
+		}
+		if !ok {
+			return "down:response-not-a-task-stream", fmt.Sprintf("root check-in response after building the chain is not a task stream (status %d)", resp.Status)
+		}
+		tasks = append(early, tasks...)
+		for i := 1; i < len(w.sims); i++ {
+			id, issued := atAdd[w.sims[i].Hex()]
+			if !issued {
+				continue
+			}
+			got, e := w.unwrap(tasks, 0, i)
+			found := false
+			for _, t := range got {
+				if t.ReqID == id {
+					found = true
+				}
+			}
+			if e != "" || !found {
+				return fmt.Sprintf("down:task-issued-at-registration-missing:depth=%d", i), fmt.Sprintf("a task (request %#x) issued for pivot agent %s at the moment its session appeared does not reach it with any of the root's check-ins (chain %v) %s", id, w.sims[i].Hex(), hexIDs(w.sims), e)
+			}
+			c.Observe("down.ok.task-issued-at-registration", 1)
+		}
+	} else {
+		w.post(w.up(0))
+	}
 	w.rec.Take()
 
 	// ---- downward ----
@@ -309,7 +360,7 @@ func clip(b []byte) []byte {
 
 func gen(rng *rand.Rand) chainCase {
 	depth := 1 + rng.Intn(5)
-	cs := chainCase{Seed: rng.Int63()}
+	cs := chainCase{Seed: rng.Int63(), TaskOnAdd: rng.Intn(2) == 0}
 	perm := rng.Perm(len(idChoices))
 	for i := 0; i <= depth; i++ {
 		id := idChoices[perm[i]]
